@@ -343,6 +343,14 @@ class GW(StoreW):
             if ss:
                 s = r.choice(ss)
                 if r.random() < 0.3: self.emit({"act": "find", "s": s.ref, "tmpl": [], "batches": []}, tid)
+                if r.random() < 0.35:
+                    # a search that MATCHES ON a byte-string attribute (for a private object: decrypts the damaged stored value), issued call by call so that
+                    # C_FindObjects / C_FindObjectsFinal / C_CloseSession follow whatever C_FindObjectsInit answered
+                    tm = r.choice([[A_bytes(K.CKA_LABEL, objs.label(victim.ref))], [A_bytes(K.CKA_ID, objs.rnd(r, 4))], [A_bytes(K.CKA_LABEL, objs.label(victim.ref)), A_bytes(K.CKA_VALUE, objs.rnd(r, 16))]])
+                    self.emit({"f": "C_FindObjectsInit", "s": s.ref, "tmpl": tm}, tid, ok=False)
+                    for _ in range(r.randint(1, 2)): self.emit({"f": "C_FindObjects", "s": s.ref, "max": r.choice([1, 10])}, tid, ok=False)
+                    if r.random() < 0.7: self.emit({"f": "C_FindObjectsFinal", "s": s.ref}, tid, ok=False)
+                    if r.random() < 0.3: self.emit({"f": "C_FindObjectsInit", "s": s.ref, "tmpl": []}, tid, ok=False); self.emit({"f": "C_FindObjectsFinal", "s": s.ref}, tid, ok=False)
                 for _ in range(r.randint(1, 3)):
                     z = r.random()
                     if z < 0.4: self.emit({"act": "readattrs", "s": s.ref, "o": victim.ref, "types": self.readtypes}, tid)
